@@ -804,7 +804,10 @@ def run_method(I, so, qual, args=(), kwargs=None):
         return 'raise', e
 
 
-def run_region(I, so, qual, stmts, locals_=None):
+def run_region(I, so, qual, stmts, locals_=None, loop=None):
+    """run statements of the real function as a region.  With loop=<ast.While> the region is one round of that loop: its real test is
+    evaluated first (the path on which it is false returns ('not-entered', None, fr)), so a condition moved between the loop test and the
+    loop body by a refactoring is seen either way"""
     mod = so.mod
     bind_bchr(mod)
     fn, ci = mod.find(qual)
@@ -812,6 +815,9 @@ def run_region(I, so, qual, stmts, locals_=None):
     fr.locals['self'] = so.selfref
     fr.locals.update(locals_ or {})
     from pyvc.interp import _Return
+    if loop is not None and isinstance(loop, ast.While):
+        if not I.truth(I.eval(loop.test, fr), 'while-test'):
+            return 'not-entered', None, fr
     try:
         I.exec_block(stmts, fr)
         return 'ok', None, fr
